@@ -98,7 +98,7 @@ def classify(item, miss_r, miss_w):
 
 def property_failures(item, names_by_id):
     """list of (kind, missing reads, missing writes, detail) for one statement on the REAL output"""
-    if item.real[0] == "raise":
+    if isinstance(item.real[0], str):      # refused (allowed) or crashed (reported as a broken correspondence)
         return []
     rep_r, rep_w = X.reported_sets(item.real[0])
     rep_r = {names_by_id[v] for v in rep_r}
@@ -111,6 +111,18 @@ def property_failures(item, names_by_id):
             out.append(("static-oracle", mr, mw, None))
     except minif.Unsupported:
         pass
+    # order clause: in an assignment the target's WRITE is its last access and no access of the statement has a
+    # later location (reads of the right-hand side and of the subscripts come first)
+    from psyclone.psyir import nodes as N
+    if isinstance(item.node, N.Assignment):
+        tgt = X.sig_indices(item.node.lhs)[0]
+        by_name = {names_by_id[v]: a for v, a in item.real[0].items()}
+        accs = by_name.get(tgt, [])
+        wlocs = [l for k, l, _ in accs if k == "W"]
+        if accs and wlocs:
+            late = sorted(n for n, a in by_name.items() if any(l > wlocs[-1] for _, l, _ in a))
+            if accs[-1][0] != "W" or late:
+                out.append(("assignment-order", late, [tgt] if accs[-1][0] != "W" else [], None))
     for bindings, events in item.traces:
         dr = {names_by_id[e[1]] for e in events if e[0] == "r"}
         dw = {names_by_id[e[1]] for e in events if e[0] == "w"}
@@ -288,6 +300,14 @@ def replay_witness(payload, quiet=False):
     may_r |= set(d.get("dyn_reads", []))
     may_w |= set(d.get("dyn_writes", []))
     mr, mw = sorted(may_r - rep_r), sorted(may_w - rep_w)
+    from psyclone.psyir import nodes as N
+    if isinstance(node, N.Assignment):
+        tgt = X.sig_indices(node.lhs)[0]
+        by_name = {by_id[v]: a for v, a in real[0].items()}
+        accs = by_name.get(tgt, [])
+        wlocs = [l for k, l, _ in accs if k == "W"]
+        if accs and wlocs and (accs[-1][0] != "W" or any(l > wlocs[-1] for a in by_name.values() for _, l, _ in a)):
+            mw = mw + ["<order: WRITE of %s is not the last access>" % tgt]
     if not quiet:
         print("statement:", stmt_text(node))
         print("observed :", {by_id[k]: v for k, v in real[0].items()})
